@@ -26,6 +26,7 @@ type Obligation struct {
 	ExpectSat bool // cover obligations
 	Result    *SolverResult
 	Bounded   bool
+	OptKey    string // set for obligations of an optional invariant: its key in droppedInvariants
 }
 
 // Exec is the symbolic execution of one top-level function (plus inlined callees) into one SMT script.
@@ -38,6 +39,8 @@ type Exec struct {
 	bindings map[string]map[string]*BindDesc // pinned-tree descriptors of contract names (rename tolerance)
 	bindRec  map[string]map[string]*BindDesc // recorded during this run (when asked to)
 	siteMatched map[int]bool // indexes of site clauses of the top contract that matched some program point
+	optionalOb      string // key of the optional invariant whose obligation is being emitted
+	optionalDropped bool   // an optional invariant was dropped while generating (the function must be generated again)
 	immCells map[string]Val // address term of a write-once cell (parameter captured by a closure, never reassigned) -> its value
 	Mode string // "contract" | "sweep"
 
@@ -262,7 +265,7 @@ func (ex *Exec) oblige(kind, detail, goal, reach, human string, pos token.Pos, p
 	if n := ex.obNames[name]; n > 1 {
 		name = fmt.Sprintf("%s~%d", name, n)
 	}
-	ob := &Obligation{Name: name, Func: shortName(canonName(ex.top)), Kind: kind, Goal: human, Pos: posOf(ex.P, pos), Props: props}
+	ob := &Obligation{Name: name, Func: shortName(canonName(ex.top)), Kind: kind, Goal: human, Pos: posOf(ex.P, pos), Props: props, OptKey: ex.optionalOb}
 	ex.obs = append(ex.obs, ob)
 	ex.pend = append(ex.pend, &pendingOb{ob: ob, idx: len(ex.body), goal: and(reach, not(goal))})
 }
